@@ -21,8 +21,10 @@ INPUT_KEYS = {"begin": ("ev", "kind", "pool", "V", "E"), "op": ("ev", "op", "v",
 
 
 def mc(ctx):
+    # per-action counts (-coverage) only for the cheap edit-machine run
+    ctx.tlc_mc("MC_Graph", "MC_Graph_edit.cfg", key="MC_Graph edit machine, ids {1,4,7,9}: ViewsConsistent",
+               coverage=True)
     if ctx.quick:
-        ctx.tlc_mc("MC_Graph", "MC_Graph_edit.cfg", key="MC_Graph edit machine, ids {1,4,7,9}: ViewsConsistent")
         ctx.tlc_mc("MC_Graph", "MC_Graph_small.cfg", key="MC_Graph ids {1,4,7}: ViewsConsistent + DefsAgree")
     else:
         ctx.tlc_mc("MC_Graph", "MC_Graph.cfg", key="MC_Graph ids {1,4,7,9}: ViewsConsistent + DefsAgree", timeout=3000)
@@ -63,20 +65,10 @@ def attach_sessions(ctx, results, only_unmatched=True):
             rj["session"] = sess
 
 
-def validate(ctx, paths, shards_per_file):
-    shards = []
-    for p in paths:
-        shards += ctx.shard(p, shards_per_file, by_session=True)
-    results = ctx.tlc_trace_many(MODULE, shards, timeout=2400, heap="3g")
-    attach_sessions(ctx, results)
-    ctx.add_rejects(results)
-    return results
-
-
 def stats(ctx, paths):
     kinds, ops, qn = {}, {}, {"roots": 0, "roots_with_unreachable_vertices": 0, "graphs_with_cycle": 0,
                               "irreducible": 0, "with_loops": 0, "max_vertices": 0}
-    sample = None
+    samples = {}            # one recorded session (inputs + first results) per kind
     for p in paths:
         cur = None
         with open(p) as f:
@@ -85,15 +77,18 @@ def stats(ctx, paths):
                 ev = e["ev"]
                 if ev == "begin":
                     ctx.traces += 1
-                    kinds[e["kind"]] = kinds.get(e["kind"], 0) + 1
-                    cur = [inputs_of(e)]
-                    if sample is None and e["kind"] == "edits":
-                        sample = cur
+                    k = e["kind"]
+                    kinds[k] = kinds.get(k, 0) + 1
+                    cur = None
+                    if k not in samples and (k != "exhaustive" or len(e["E"]) >= 4):
+                        cur = samples[k] = [inputs_of(e)]
                 elif ev == "op":
                     k = e["op"] + ":" + ("ok" if "ok" in e["res"] else "err" if "err" in e["res"] else "other")
                     ops[k] = ops.get(k, 0) + 1
-                    if cur is not None and len(cur) < 14:
-                        cur.append(inputs_of(e))
+                    if cur is not None and len(cur) < 12:
+                        o = inputs_of(e)
+                        o["res"] = e["res"]
+                        cur.append(o)
                 elif ev == "query":
                     qn["roots"] += 1
                     qn["max_vertices"] = max(qn["max_vertices"], len(e["V"]))
@@ -103,18 +98,19 @@ def stats(ctx, paths):
                         qn["irreducible"] += 1
                     if e["loops"].get("ok"):
                         qn["with_loops"] += 1
-                    if cur is not None and len(cur) < 14:
+                    if cur is not None and len(cur) < 14 and not any(x.get("ev") == "query" for x in cur):
                         cur.append(e)
-                        if sample is None and len(e["V"]) >= 3:
-                            sample = cur
                 elif ev == "gquery":
                     if "err" in e["topo"]:
                         qn["graphs_with_cycle"] += 1
+                    if cur is not None and len(cur) < 14 and not any(x.get("ev") == "gquery" for x in cur):
+                        cur.append(e)
     ctx.extra["sessions_by_kind"] = kinds
     ctx.extra["edit_operations"] = ops
     ctx.extra["queries"] = qn
-    if sample:
-        ctx.samples.append(sample)
+    for k in ("edits", "random", "exhaustive"):
+        if k in samples:
+            ctx.samples.append(samples[k])
 
 
 def run(ctx):
